@@ -80,6 +80,8 @@ type dtRow struct {
 	exprOf func(info *types.Info, fn *an.Func) ast.Expr
 	// occ: number atoms by source occurrence (needed when the same text is evaluated at several program points)
 	occ bool
+	// optional (value rows): assignments for which no effect applies carry no obligation
+	optional bool
 }
 
 func runTPCDecision(c *core.Ctx) {
@@ -754,7 +756,10 @@ func runDecisionRows(c *core.Ctx, e *Env, pkgPath, defaultType string, rows []dt
 								return false
 							}
 						}
-						if hits != 1 {
+						if hits == 0 && row.optional {
+						return true
+					}
+					if hits != 1 && !row.optional {
 							mismatch = fmt.Sprintf("for %s %d assignments apply (expected exactly one)", env, hits)
 							return false
 						}
